@@ -124,6 +124,11 @@ func loadEngine(repo string, patterns []string, speclibDir string) (*Engine, fun
 			if g.IsState {
 				srt, _, _, err := e.ghostStateSort(g)
 				if err != nil {
+					if strings.Contains(err.Error(), "unknown package") && !strings.Contains(g.Where, "zz_verif_contracts.go") {
+						// spec-library state over a package this program does not import: nothing can refer to it
+						delete(e.ghosts, g.Name)
+						continue
+					}
 					errs = append(errs, fmt.Sprintf("%s: %v", g.Where, err))
 					continue
 				}
